@@ -1,6 +1,8 @@
 package main
 
 import (
+	"bufio"
+	"bytes"
 	crand "crypto/rand"
 	"fmt"
 	"io"
@@ -13,6 +15,13 @@ import (
 type scriptErr struct{ code int }
 
 func (e *scriptErr) Error() string { return fmt.Sprintf("scripted error %d", e.code) }
+
+// tempErr is an error that reports itself as temporary (like syscall.EAGAIN / EINTR)
+type tempErr struct{ code int }
+
+func (e *tempErr) Error() string   { return fmt.Sprintf("temporary scripted error %d", e.code) }
+func (e *tempErr) Temporary() bool { return true }
+func (e *tempErr) Timeout() bool   { return false }
 
 type step struct {
 	data []byte
@@ -61,7 +70,11 @@ func parseScript(sc string) []step {
 		case strings.HasPrefix(f[1], "o"):
 			var c int
 			fmt.Sscan(f[1][1:], &c)
-			st.err = &scriptErr{c}
+			if c >= 1000 {
+				st.err = &tempErr{c} // codes >= 1000: same model-side error, but Temporary() on the Go side
+			} else {
+				st.err = &scriptErr{c}
+			}
 		}
 		out = append(out, st)
 	}
@@ -90,6 +103,8 @@ func implNewm(n, l int64, sc string) string {
 		case nil:
 			res = "ok " + hx([]byte(s))
 		case *scriptErr:
+			res = fmt.Sprintf("err io:o%d", e.code)
+		case *tempErr:
 			res = fmt.Sprintf("err io:o%d", e.code)
 		default:
 			switch {
@@ -158,6 +173,16 @@ func (c *Ctx) c09Words() {
 	}
 	for _, d := range []int64{12, 15, 18, 21, 24} {
 		counts = append(counts, math.MinInt64+d, math.MaxInt64-d, math.MaxInt64-d+1)
+		// w + j·c·2^k: aliases of w under n/3*32, n*4/3, n*11 … computed in 64 bits
+		for _, k := range []uint{55, 56, 57, 58, 59, 60, 61} {
+			for _, cc := range []int64{1, 3, 5, 11} {
+				for j := int64(-5); j <= 5; j++ {
+					if j != 0 {
+						counts = append(counts, d+j*cc*(int64(1)<<k))
+					}
+				}
+			}
+		}
 	}
 	for _, n := range counts {
 		for _, li := range []int{2, 5} {
@@ -218,6 +243,17 @@ func propC06(c *Ctx) {
 				c.newm("fail-at-k:source-ends", n, l, ".")
 			}
 		}
+		// errors that call themselves temporary, once or repeatedly, with nothing delivered in between
+		for _, rep := range []int{1, 2, 4, 5, 6, 9} {
+			l := int64(langVals[(rep+wi)%10])
+			parts := []string{hx(c.randBytes(1+c.rng.Intn(need-1))) + ":-"}
+			for i := 0; i < rep; i++ {
+				parts = append(parts, "_:o1011")
+			}
+			parts = append(parts, hx(c.randBytes(need))+":-")
+			c.newm("fail:temporary-error-repeated", n, l, strings.Join(parts, ","))
+			c.newm("fail:temporary-error-first", n, l, strings.Repeat("_:o1004,", rep)+hx(c.randBytes(need))+":-")
+		}
 		// successful deliveries
 		reps := 12 * c.scale
 		if !c.quick {
@@ -245,6 +281,7 @@ func propC06(c *Ctx) {
 			}())
 		}
 	}
+	c.sharedReaderCalls()
 	r.Exhaustive = true
 	r.sample("newm 24 English 20 bytes:-,_:o7 -> err io:o7 reads=2 (no mnemonic from a partially filled buffer)")
 	r.sample("newm 15 Japanese <20 bytes in 1..4-byte reads with zero-length reads> -> ok <15 words>")
@@ -355,4 +392,49 @@ func implNewmDefault(n, l int64) string {
 		// the content is random: report only the shape
 		return fmt.Sprintf("ok words=%d", len(strings.FieldsFunc(s, func(r rune) bool { return r == ' ' || r == '　' })))
 	})
+}
+
+// sharedReaderCalls: several NewMnemonic calls on ONE source object (plain, bytes.Reader,
+// bufio.Reader): call i must encode the i-th block of 4n/3 bytes, and fail once the stream is short.
+func (c *Ctx) sharedReaderCalls() {
+	r := c.rep
+	for _, n := range wordCounts {
+		need := int(n) * 4 / 3
+		for kind := 0; kind < 4; kind++ {
+			data := c.randBytes(need*3 + c.rng.Intn(need))
+			var src io.Reader
+			name := ""
+			switch kind {
+			case 0:
+				src, name = bytes.NewReader(data), "bytes.Reader"
+			case 1:
+				src, name = bufio.NewReader(bytes.NewReader(data)), "bufio.Reader"
+			case 2:
+				src, name = bufio.NewReaderSize(&scriptReader{steps: parseScript(fragment(c, data, true))}, 4096), "bufio.Reader over fragments"
+			case 3:
+				src, name = strings.NewReader(string(data)), "strings.Reader"
+			}
+			li := c.rng.Intn(10)
+			l := int64(langVals[li])
+			prev := bip39.VerifSwapRandSource(src)
+			for call := 0; call < 5; call++ {
+				s, err := bip39.NewMnemonic(int(n), langVals[li])
+				r.count("shared-source:" + name)
+				r.nontrivial(fmt.Sprintf("%s/%d/%d", name, n, call))
+				if call < 3 {
+					want := c.specSentence(l, data[call*need:(call+1)*need])
+					if err != nil || s != want {
+						r.violate(Violation{Kind: "impl≠spec", Class: "shared-source:" + name, Op: fmt.Sprintf("call #%d of NewMnemonic(%d,%s) on one %s holding %s", call+1, n, langNames[li], name, hx(data)),
+							Impl: fmt.Sprintf("%q %v", s, err), Spec: want, Detail: "each call must encode the next 4n/3 bytes of the source"})
+						break
+					}
+				} else if err == nil || s != "" {
+					r.violate(Violation{Kind: "impl≠spec", Class: "shared-source:" + name, Op: fmt.Sprintf("call #%d of NewMnemonic(%d,%s) on one %s holding %d bytes", call+1, n, langNames[li], name, len(data)),
+						Impl: fmt.Sprintf("%q %v", s, err), Spec: "error (stream exhausted)", Detail: "a mnemonic was returned although the source has ended"})
+					break
+				}
+			}
+			bip39.VerifSwapRandSource(prev)
+		}
+	}
 }
